@@ -5,10 +5,99 @@
 #ifndef OPNMIDI_VERIF_CONTRACTS_H
 #define OPNMIDI_VERIF_CONTRACTS_H
 
+#ifndef VERIF_SEGMENTS
 #define VERIF_LOOP(id) VERIF_LOOP_##id
 #define VERIF_GHOST(decl) decl
+#define VERIF_ENTRY(id)
+#else
+/* ------------------------------------------------------------------------------------------------------
+ * Loop-head cut points (DESIGN.md C15.5).  The function is compiled unchanged; the markers turn every marked
+ * loop head into a cut point:
+ *   - arriving at a marked loop head stops the function there and captures the locals into g_out (g_seg_exit = id);
+ *   - VERIF_ENTRY lets the harness START at a marked loop head: the locals are restored from g_in at the label.
+ * One segment = from the start point to the first cut point or return reached; every segment is loop free
+ * (a loop head is never passed twice).  The harness assumes the loop invariant on g_in and asserts the invariant of
+ * the loop whose head is reached (base, step and exit cases of the loop rule) or the postcondition on return. */
+#define VERIF_GHOST(decl) decl
+#define VERIF_LOOP(id) verif_lbl_##id: \
+    if((g_seg_start == VERIF_ID_##id && !g_seg_started) ? (VERIF_RESTORE_##id, g_seg_started = 1, 0) : 1) \
+    { VERIF_CAPTURE_##id; g_seg_exit = VERIF_ID_##id; return VERIF_RET_##id; } else
+#define VERIF_ENTRY(id) VERIF_ENTRY_##id
 
-/* ---------------------------------------------------------------- wopn_file.c ---------------------- */
+enum { VERIF_ID_wopn_load_names_i = 1, VERIF_ID_wopn_load_names_j, VERIF_ID_wopn_load_ins_i, VERIF_ID_wopn_load_ins_j, VERIF_ID_wopn_load_ins_k,
+       VERIF_ID_wopn_save_names_i = 11, VERIF_ID_wopn_save_names_j, VERIF_ID_wopn_save_ins_i, VERIF_ID_wopn_save_ins_j, VERIF_ID_wopn_save_ins_k };
+struct verif_seg_state
+{
+    struct WOPNFile *file; unsigned short i, j, k, version, cm, cp; unsigned char *cursor;
+    struct WOPNBank *bs0, *bs1; unsigned short sz0, sz1; unsigned long length, length0; unsigned short ins_size;
+    unsigned long hdr;   /* ghost: bytes of magic+version+counts+flags (16 or 18) */
+};
+extern struct verif_seg_state g_in, g_out;
+extern int g_seg_start, g_seg_started, g_seg_exit;
+
+#define VERIF_ENTRY_wopn_load switch(g_seg_start) { \
+    case VERIF_ID_wopn_load_names_i: goto verif_lbl_wopn_load_names_i; case VERIF_ID_wopn_load_names_j: goto verif_lbl_wopn_load_names_j; \
+    case VERIF_ID_wopn_load_ins_i: goto verif_lbl_wopn_load_ins_i; case VERIF_ID_wopn_load_ins_j: goto verif_lbl_wopn_load_ins_j; \
+    case VERIF_ID_wopn_load_ins_k: goto verif_lbl_wopn_load_ins_k; default: break; }
+#define VERIF_ENTRY_wopn_save switch(g_seg_start) { \
+    case VERIF_ID_wopn_save_names_i: goto verif_lbl_wopn_save_names_i; case VERIF_ID_wopn_save_names_j: goto verif_lbl_wopn_save_names_j; \
+    case VERIF_ID_wopn_save_ins_i: goto verif_lbl_wopn_save_ins_i; case VERIF_ID_wopn_save_ins_j: goto verif_lbl_wopn_save_ins_j; \
+    case VERIF_ID_wopn_save_ins_k: goto verif_lbl_wopn_save_ins_k; default: break; }
+
+/* the current bank is a one-element typed window: bankslots[SEG_I] = window - j, written over the restored local j
+ * so that window - j + j cancels syntactically (SEG_I is the compile-time slot of the group) */
+extern struct WOPNBank verif_env_win0[1], verif_env_win1[1];
+#ifndef SEG_I
+#define SEG_I 0
+#endif
+#define SEG_RESTORE_WINDOWS bankslots[0] = verif_env_win0 - (SEG_I == 0 ? j : 0), bankslots[1] = verif_env_win1 - (SEG_I == 1 ? j : 0)
+#define SEG_RESTORE_LOAD (outFile = g_in.file, i = g_in.i, j = g_in.j, k = g_in.k, version = g_in.version, \
+    count_melodic_banks = g_in.cm, count_percussive_banks = g_in.cp, cursor = g_in.cursor, SEG_RESTORE_WINDOWS, \
+    bankslots_sizes[0] = g_in.sz0, bankslots_sizes[1] = g_in.sz1, length = g_in.length, verif_length0 = g_in.length0)
+#define SEG_CAPTURE_LOAD (g_out.file = outFile, g_out.i = i, g_out.j = j, g_out.k = k, g_out.version = version, \
+    g_out.cm = count_melodic_banks, g_out.cp = count_percussive_banks, g_out.cursor = cursor, g_out.bs0 = bankslots[0], g_out.bs1 = bankslots[1], \
+    g_out.sz0 = bankslots_sizes[0], g_out.sz1 = bankslots_sizes[1], g_out.length = length, g_out.length0 = verif_length0)
+#define VERIF_RESTORE_wopn_load_names_i SEG_RESTORE_LOAD
+#define VERIF_RESTORE_wopn_load_names_j SEG_RESTORE_LOAD
+#define VERIF_RESTORE_wopn_load_ins_i (SEG_RESTORE_LOAD, insSize = g_in.ins_size)
+#define VERIF_RESTORE_wopn_load_ins_j (SEG_RESTORE_LOAD, insSize = g_in.ins_size)
+#define VERIF_RESTORE_wopn_load_ins_k (SEG_RESTORE_LOAD, insSize = g_in.ins_size)
+#define VERIF_CAPTURE_wopn_load_names_i SEG_CAPTURE_LOAD
+#define VERIF_CAPTURE_wopn_load_names_j SEG_CAPTURE_LOAD
+#define VERIF_CAPTURE_wopn_load_ins_i (SEG_CAPTURE_LOAD, g_out.ins_size = insSize)
+#define VERIF_CAPTURE_wopn_load_ins_j (SEG_CAPTURE_LOAD, g_out.ins_size = insSize)
+#define VERIF_CAPTURE_wopn_load_ins_k (SEG_CAPTURE_LOAD, g_out.ins_size = insSize)
+#define VERIF_RET_wopn_load_names_i NULL
+#define VERIF_RET_wopn_load_names_j NULL
+#define VERIF_RET_wopn_load_ins_i NULL
+#define VERIF_RET_wopn_load_ins_j NULL
+#define VERIF_RET_wopn_load_ins_k NULL
+
+#define SEG_RESTORE_SAVE (cursor = g_in.cursor, ins_size = g_in.ins_size, i = g_in.i, j = g_in.j, k = g_in.k, version = g_in.version, \
+    banks_melodic = g_in.sz0, banks_percussive = g_in.sz1, SEG_RESTORE_WINDOWS, \
+    bankslots_sizes[0] = g_in.sz0, bankslots_sizes[1] = g_in.sz1, length = g_in.length, verif_length0 = g_in.length0)
+#define SEG_CAPTURE_SAVE (g_out.cursor = cursor, g_out.ins_size = ins_size, g_out.i = i, g_out.j = j, g_out.k = k, g_out.version = version, \
+    g_out.cm = banks_melodic, g_out.cp = banks_percussive, g_out.bs0 = bankslots[0], g_out.bs1 = bankslots[1], \
+    g_out.sz0 = bankslots_sizes[0], g_out.sz1 = bankslots_sizes[1], g_out.length = length, g_out.length0 = verif_length0, g_out.file = file)
+#define VERIF_RESTORE_wopn_save_names_i SEG_RESTORE_SAVE
+#define VERIF_RESTORE_wopn_save_names_j SEG_RESTORE_SAVE
+#define VERIF_RESTORE_wopn_save_ins_i SEG_RESTORE_SAVE
+#define VERIF_RESTORE_wopn_save_ins_j SEG_RESTORE_SAVE
+#define VERIF_RESTORE_wopn_save_ins_k SEG_RESTORE_SAVE
+#define VERIF_CAPTURE_wopn_save_names_i SEG_CAPTURE_SAVE
+#define VERIF_CAPTURE_wopn_save_names_j SEG_CAPTURE_SAVE
+#define VERIF_CAPTURE_wopn_save_ins_i SEG_CAPTURE_SAVE
+#define VERIF_CAPTURE_wopn_save_ins_j SEG_CAPTURE_SAVE
+#define VERIF_CAPTURE_wopn_save_ins_k SEG_CAPTURE_SAVE
+#define VERIF_RET_wopn_save_names_i (-99)
+#define VERIF_RET_wopn_save_names_j (-99)
+#define VERIF_RET_wopn_save_ins_i (-99)
+#define VERIF_RET_wopn_save_ins_j (-99)
+#define VERIF_RET_wopn_save_ins_k (-99)
+#endif
+
+#ifndef VERIF_SEGMENTS
+/* ---------------------------------------------------------------- wopn_file.c (DFCC loop contracts) ------ */
 /* cursor walks the caller's block: same object, and what has been consumed plus what is left is the
  * length the function was called with */
 #define WOPN_CUR_INV(base) \
@@ -83,5 +172,7 @@
                              length >= WOPN_NEED(ins_size, (128 - (size_t)k) + 128 * (size_t)(bankslots_sizes[i] - j - 1))) \
     __CPROVER_decreases(128 - k)
 #endif
+
+#endif /* !VERIF_SEGMENTS */
 
 #endif
